@@ -651,7 +651,7 @@ func (fv *FnVerifier) oblige(kind, label, cond, goal string, pos token.Pos, deta
 	if cond != "" && cond != "true" {
 		g = "(=> " + cond + " " + goal + ")"
 	}
-	o := &Obligation{Name: fv.oblName(kind, label), Kind: kind, Goal: g, Pos: fv.posString(pos), Detail: detail, FnName: fv.fnShort}
+	o := &Obligation{Name: fv.oblName(kind, label), Kind: kind, Goal: g, Pos: fv.posString(pos), Detail: detail, FnName: fv.fnShort, Ctx: &ReplayCtx{fv: fv}}
 	if goal == "true" {
 		o.Status, o.Solver = "unsat", "syntactic"
 	}
